@@ -34,7 +34,10 @@ fn main() {
 }
 
 // ------------------------------------------------------------------ the database under test
+/// scratch directory of this process: /dev/shm/c19-<pid> (or <verif>/build/tmp/c19-<pid>), removed at the end
 fn scratch_root() -> PathBuf {
+    let shm = PathBuf::from("/dev/shm");
+    if shm.is_dir() { return shm.join(format!("c19-{}", std::process::id())); }
     let exe = std::env::current_exe().ok();
     let base = exe.as_ref().and_then(|p| p.parent()).and_then(|p| p.parent()).and_then(|p| p.parent())
         .map(|p| p.join("tmp")).unwrap_or_else(|| PathBuf::from("/verif/build/tmp"));
@@ -573,7 +576,7 @@ fn gen(a: &Args) {
         return;
     }
     let mut rng = Rng::new(a.seed);
-    let n_meta = if a.thorough() { 6000 } else { 420 };
+    let n_meta = if a.thorough() { 3600 } else { 420 };
     for k in 0..n_meta {
         let (stream, cfg) = stream_cfg(k);
         let shape = pick_shape(&mut rng);
@@ -582,7 +585,7 @@ fn gen(a: &Args) {
         emit_meta(&mut w, &mut sut, &m, stream);
     }
     // rule-level cases: the real ConstantFoldingRule / PredicatePushdownRule on generated plans
-    let n_rule = if a.thorough() { 6000 } else { 500 };
+    let n_rule = if a.thorough() { 4000 } else { 500 };
     for k in 0..n_rule {
         let (stream, cfg) = stream_cfg(k);
         if k % 2 == 0 {
